@@ -288,3 +288,114 @@ def no_abort(ctx, rep):
                 n += 1
         rep.rules[rep._cur]['instances'] += n
         rep.ok('%d instructions scanned in %s' % (n, cfg))
+
+
+def helper_contracts(ctx, rep):
+    """structural contracts of the small string helpers that the exit summaries replace by summaries (so their bodies are checked here)"""
+    for cfg in (ctx.configs('path') if ctx.tier == 'thorough' else ['NsS']):
+        P = ctx.prog(cfg)
+        if cfg not in rep.configs: rep.configs.append(cfg)
+        from .rules_cmp import nonnul_dataflow
+        rep.rule('HELP-1', 'write_str copies the source up to, not including, its NUL: one loop whose only exit is the NUL test of the byte under the '
+                 'source cursor; each iteration stores that byte through the destination cursor and advances both cursors by one; the caller\'s cursor '
+                 'receives the final destination position')
+        for g in P.fns('write_str'):
+            w = '%s:%s' % ((g.file or '').replace('/repo/', ''), g.line)
+            src = cursor_family(g, 1)
+            exits = []      # conditional branches inside a cycle
+            loopblocks = set()
+            for b in range(len(g.blocks)):
+                # b is in a loop if it can reach itself
+                seen = set(); st = list(g.succs[b])
+                while st:
+                    n = st.pop()
+                    if n in seen: continue
+                    seen.add(n); st.extend(g.succs[n])
+                if b in seen: loopblocks.add(b)
+            conds = []
+            for b in loopblocks:
+                t = g.blocks[b][-1]
+                if t.op == 'br' and len(t.ops) == 3 and any(s_ not in loopblocks for s_ in g.succs[b]):
+                    conds.append((b, cond_class(g, t.ops[0])))
+            ok = len(conds) == 1 and conds[0][1] is not None and conds[0][1][0] == 'nul' and addr_base(g, conds[0][1][1].ops[0])[0] in src \
+                and addr_base(g, conds[0][1][1].ops[0])[1] == 0
+            rep.check(ok, 'the copy loop ends only at the source\'s NUL', w, '%s loop exits' % base_name(g.name), detail=[(b, str(c)[:60]) for b, c in conds],
+                      sample={'function': g.name, 'loop_exits': len(conds)}, key='HELP-1|exit')
+            stores = [i for i in g.all_insts() if i.op == 'store' and i.bb in loopblocks and i.d['size'] == 1]
+            ok2 = len(stores) == 1
+            if ok2:
+                s_ = stores[0]
+                ld = inst_of(g, s_.ops[0])
+                ok2 = ld is not None and ld.op == 'load' and addr_base(g, ld.ops[0])[0] in src and addr_base(g, ld.ops[0])[1] == 0
+                dbase, doff = addr_base(g, s_.ops[1])
+                ok2 = ok2 and doff == 0
+                # both cursors advance by exactly one per iteration: each loop phi's back-edge value is GEP(phi, 1)
+                phis = [i for i in g.all_insts() if i.op == 'phi' and i.bb in loopblocks and i.d['ty'] == 'i8*']
+                for ph in phis:
+                    for v, pb in ph.d['incoming']:
+                        if pb in loopblocks:
+                            bb_, o_ = addr_base(g, v)
+                            ok2 = ok2 and bb_ == ('i', ph.id) and o_ == 1
+                ok2 = ok2 and len(phis) == 2
+            rep.check(ok2, 'each iteration copies the byte under the source cursor and advances both cursors by one', w, '%s loop body' % base_name(g.name), key='HELP-1|body')
+        rep.rule('HELP-2', 'utf8_nfkd_lazy returns either the value returned by dep:u8_nfkd (non-ASCII input) or the number of bytes it copied, which is the '
+                 'index at which it stores the terminator')
+        for g in P.fns('utf8_nfkd_lazy'):
+            w = '%s:%s' % ((g.file or '').replace('/repo/', ''), g.line)
+            from .paths import feasible_walks
+            term_idx = set()
+            for i in g.all_insts():
+                if i.op == 'store' and i.d['size'] == 1 and const_of(i.ops[0]) == 0:
+                    a = inst_of(g, i.ops[1])
+                    if a is not None and a.op == 'getelementptr' and a.d['var_steps']:
+                        term_idx.add(vk(strip_ext(g, a.d['var_steps'][0]['idx'])))
+            def sources(v, depth=0):
+                v = strip_ext(g, v)
+                i = inst_of(g, v)
+                if i is not None and i.op == 'phi' and depth < 6:
+                    carried = any(inst_of(g, x) is not None and inst_of(g, x).op in ('add', 'getelementptr') and vk(inst_of(g, x).ops[0]) == ('i', i.id) for x, _ in i.d['incoming'])
+                    if not carried:
+                        out = []
+                        for x, _ in i.d['incoming']: out += sources(x, depth + 1)
+                        return out
+                return [v]
+            kinds = set()
+            for r_ in [i for i in g.all_insts() if i.op == 'ret']:
+                for r in sources(r_.ops[0]):
+                    if r['k'] == 'i' and g.insts[r['id']].op == 'call' and P.call_target(g.insts[r['id']]) == ('dep', 'u8_nfkd'): kinds.add('nfkd')
+                    elif vk(r) in term_idx: kinds.add('count')
+                    else: kinds.add('other:%s' % (r,))
+            rep.check(kinds <= {'nfkd', 'count'} and 'nfkd' in kinds and 'count' in kinds, 'return value is the normaliser\'s result or the copy count', w, base_name(g.name),
+                      detail=sorted(kinds), sample=sorted(kinds), key='HELP-2|ret')
+        rep.rule('HELP-3', 'lang_search gives up (negative result) only after the search itself: every return of a negative constant lies after the bsearch '
+                 'call or after the scan loop ran off its bound; no early rejection of a token')
+        for g in P.fns('lang_search'):
+            w = '%s:%s' % ((g.file or '').replace('/repo/', ''), g.line)
+            from .paths import structural_walks
+            n = 0
+            for wk in structural_walks(P, g, unroll=1):
+                rc = wk.ret_class()
+                if rc and rc[0] == 'const' and rc[1] >> 31:
+                    n += 1
+                    searched = any(i.op == 'call' and (P.call_target(i) == ('direct', 'bsearch') or P.call_target(i)[0] == 'indirect') for i in wk.events)
+                    for i in wk.events:          # ... or the scan loop's own bound test was left (counter compared with a constant)
+                        if i.op == 'br' and len(i.ops) == 3:
+                            c = inst_of(g, i.ops[0])
+                            if c is not None and c.op == 'icmp' and const_of(c.ops[1]) is not None:
+                                ph = inst_of(g, strip_ext(g, c.ops[0]))
+                                if ph is not None and ph.op == 'phi' and const_of(c.ops[1]) >= 2048: searched = True
+                    rep.check(searched, 'negative result on path %s comes after a search step' % wk.path, g.blocks[wk.path[-1]][-1].loc, '%s: token rejected without searching' % base_name(g.name),
+                              key='HELP-3|early-reject')
+            rep.instances(n, 2, 'negative-return paths of lang_search')
+        rep.rule('HELP-4', 'the default clock returns the value of time(NULL) unchanged (no truncation)')
+        for g in P.defined.values():
+            calls = [i for i, t in P.calls(g) if t == ('direct', 'time')]
+            if not calls: continue
+            w = '%s:%s' % ((g.file or '').replace('/repo/', ''), g.line)
+            rets = [i for i in g.all_insts() if i.op == 'ret']
+            ok = len(rets) == 1 and len(calls) == 1 and len(g.blocks) == 1
+            if ok:
+                v = rets[0].ops[0]
+                while v['k'] == 'i' and g.insts[v['id']].op in ('sext', 'zext', 'bitcast'): v = g.insts[v['id']].ops[0]
+                ok = v == {'k': 'i', 'id': calls[0].id}
+            rep.check(ok, 'default clock = time(NULL) passed through', w, base_name(g.name), key='HELP-4|clock')
